@@ -3,13 +3,18 @@ import vlib, s1, gen, s1eval
 
 PROP = "C05"
 EDITS = ["none", "deldir", "flip", "truncate", "append", "addfile", "adddir", "delete", "rename", "relink", "dangle", "swap_f2d",
-         "swap_d2f", "below_norec", "uncopy", "rmobj", "rmart", "checkout_other", "lookalike", "movecache"]
+         "swap_d2f", "below_norec", "uncopy", "rmobj", "rmart", "checkout_other", "lookalike", "movecache", "rmman", "emptied_rmman",
+         "uncommitted"]
 
 
 def make_cases(rng, tier, n):
     cases, stats = [], {}
     for i in range(n):
         c = gen.basic_project(rng, "st-%d" % i, tier, stats=stats)
+        if rng.random() < 0.25:
+            # a directory artifact that is empty (its manifest has no entries)
+            c["init"].append(("dir", b"emptyart"))
+            c["stages"].append((b"empty.yaml", dict(cmd=b"", wd=b".", out=[(b"emptyart", "d")])))
         strat = rng.choice("lc")
         arts = s1eval.artifacts(c)
         files = [e for e in c["init"] if e[0] == "file"]
@@ -71,6 +76,14 @@ def make_cases(rng, tier, n):
             ops.append(("movecache",))
         elif edit == "rmobj":
             ops.append(("rmobj", rng.randrange(50)))
+        elif edit == "rmman" and dart:
+            ops.append(("rmobj", "m%d" % rng.randrange(50)))
+        elif edit == "emptied_rmman" and dart:
+            # the workspace directory ends up empty and a manifest is gone from the cache
+            a = rng.choice(dart)[0]
+            ops += [("rm", a), ("mkdir", a), ("rmobj", "m%d" % rng.randrange(50))]
+        elif edit == "uncommitted":
+            ops = []
         elif edit == "rmart" and arts:
             ops.append(("rm", rng.choice(arts)[0]))
         elif edit == "checkout_other":
@@ -128,10 +141,38 @@ def human_uptodate(text):
     return False
 
 
+EMPTY_MARK = "[an empty directory that is not committed / whose manifest is not in the cache is rendered like an up-to-date one]"
+
+
+def has_unbacked_empty_dir(tree):
+    if tree["isdir"] and tree["ws"] == "directory" and not tree["kids"] and not (tree["has"] and tree["inc"]):
+        return True
+    return any(has_unbacked_empty_dir(k) for k in tree["kids"])
+
+
+def only_unbacked_empty_dirs_stale(tree):
+    """every stale leaf of the --debug tree is an empty directory without a manifest in the cache"""
+    if not tree["kids"]:
+        if tree["cm"]:
+            return True
+        return tree["isdir"] and tree["ws"] == "directory" and not (tree["has"] and tree["inc"])
+    return all(only_unbacked_empty_dirs_stale(k) for k in tree["kids"])
+
+
 def oracle(run):
     v = []
     steps = run["steps"]
     if not steps or steps[0]["rc"] != 0:
+        return v
+    if steps[0]["op"][0] != "commit":
+        # nothing was ever committed: no artifact is up to date
+        for s in [s for s in steps if s["op"][0] == "status" and s["rc"] == 0]:
+            for p, st in s1eval.status_of(s).items():
+                if st["tree"]["cm"]:
+                    v.append(("debug", "nothing was committed, yet status --debug says ContentsMatch=True for %s (edit: uncommitted)" % p.decode()))
+                if human_uptodate(st["text"]):
+                    mark = EMPTY_MARK if has_unbacked_empty_dir(st["tree"]) and only_unbacked_empty_dirs_stale(st["tree"]) else ""
+                    v.append(("human", "human status %r for %s although nothing was committed (edit: uncommitted) %s" % (st["text"], p.decode(), mark)))
         return v
     commit = steps[0]
     stat_steps = [s for s in steps if s["op"][0] == "status" and s["rc"] == 0]
@@ -147,8 +188,9 @@ def oracle(run):
                     " ; ".join(s1.op_text(o) for o in run["case"]["ops"][1:-1])[:120], cm, p.decode(), want, run["case"].get("edit"))))
             hu = human_uptodate(got[p]["text"])
             if hu != want:
-                v.append(("human", "human status %r for %s, independent diff says up-to-date=%s (edit: %s)" % (
-                    got[p]["text"], p.decode(), want, run["case"].get("edit"))))
+                mark = EMPTY_MARK if (hu and not cm and has_unbacked_empty_dir(got[p]["tree"]) and only_unbacked_empty_dirs_stale(got[p]["tree"])) else ""
+                v.append(("human", "human status %r for %s, independent diff says up-to-date=%s (edit: %s) %s" % (
+                    got[p]["text"], p.decode(), want, run["case"].get("edit"), mark)))
     return v
 
 
@@ -159,6 +201,8 @@ def finding_of(run, tag, text):
             continue
         m = f.get("matcher")
         if m == "human-render-hides-directory-change" and tag == "human" and case.get("edit") in ("adddir", "deldir", "swap_d2f"):
+            return f["id"], f["what"]
+        if m == "human-render-empty-directory" and tag == "human" and text.endswith(EMPTY_MARK):
             return f["id"], f["what"]
     return None
 
